@@ -265,6 +265,13 @@ def generate(req):
         c.execute("create index ix_rawtext_n on t_rawtext(n)")
         raw = [b"caf\xe9", b"\xff", b"\xc3", b"a\xc0\xafb", b"\xed\xa0\x80", b"plain", b"\xf0\x9f\x98", b"Caf\xe9", b"caf\xc3\xa9", b"\xfe\xff", b"A\x80", b"a\x80"]
         c.executemany("insert into t_rawtext(s, n) values(cast(? as text), cast(? as text))", [(x, x) for x in raw])
+        # names that differ only in the case of a non-ASCII letter are DIFFERENT names (SQLite folds ASCII only)
+        c.execute('create table "É"(id INTEGER PRIMARY KEY, "Ä" TEXT, "ä" TEXT, n)')
+        c.execute('create index "iÉ" on "É"("ä")')
+        c.execute('create table "é"(id INTEGER PRIMARY KEY, "Ä" TEXT, "ä" TEXT, n)')
+        c.execute('create index "ié" on "é"("Ä", n)')
+        c.executemany('insert into "É" values(?,?,?,?)', [(i, "UP%d" % (i % 5), "low%d" % (i % 3), i) for i in range(1, 9)])
+        c.executemany('insert into "é" values(?,?,?,?)', [(i, "second-UP%d" % (i % 2), "second-low%d" % i, -i) for i in range(1, 6)])
         c.execute("create table t_empty(x, y)")
         c.execute("create index ix_empty_x on t_empty(x)")
         # real columns that carry the names of the rowid keywords (only _rowid_ still means the rowid)
